@@ -302,13 +302,16 @@ ADDED = {
            "carry the same seven values and declared bounds.",
     "C03": "Further observables: the three bin bounds every PackingResult carries, directly and inside the records "
            "derived for the witness packings (repeating instance names; a record that rejects a feasible packing is a "
-           "verdict). Constructors of very large bins run under a wall clock.",
+           "verdict). Constructors of very large bins run under a wall clock. Every fifth dissection is untrimmed and "
+           "scaled by a common unit (pieces tile the bins completely).",
     "C05": "Caller-supplied lower bound / range multiplier, shipped instances with their published bounds, 127..400 cities.",
-    "C06": "127..300 cities.",
+    "C06": "127..300 cities. FEA runs that log their frequency table (do_log_h): same trace, logged lengths in range, "
+           "every visited length counted.",
     "C07": "The domain of the property (GamePlanSpace.validate vs WellShaped: values just outside -n..n, wrong shapes, "
            "foreign dtype/instance); the limits stored by the instance vs the constructor arguments; 32..130 teams.",
     "C08": "32..130 teams.",
-    "C09": "Caller-supplied (valid, TLC-rechecked) bounds; shipped instances with their own bounds.",
+    "C09": "Caller-supplied (valid, TLC-rechecked) bounds; shipped instances with their own bounds; every shipped "
+           "instance of any size: reported values inside the bounds the loaded instance declares.",
     "C10": "multi_run_ode (order, running index, group budgets, merit/time of that simulation) and the ResultsLog table; "
            "adaptive wall-clock guards.",
     "C12": "Bin-packing runs also on own instances (generated, turned by 90 degrees, full-height items) with each "
@@ -316,8 +319,10 @@ ADDED = {
     "C13": "Also every controller family, the system equations, the simulation kernels, the swap distance and the real "
            "EA/FEA solve loops under bounds checking.",
     "C15": "31..129 teams.",
-    "C16": "Predefined laws at their exact points; the make_ann cache (confusable architectures).",
-    "C17": "Decode calls under a wall clock; another vector decoded into a used receiver must deliver that vector's instance.",
+    "C16": "Predefined laws at their exact points; the make_ann cache (confusable architectures); the predefined "
+           "tanh law under every pattern of zero divisors; a kernel that raises is a verdict.",
+    "C17": "Decode calls under a wall clock; another vector decoded into a used receiver must deliver that vector's instance. "
+           "Hardness histories across a change of instance name.",
     "C19": "Synthetic result/statistics tables (fractional and infinite bounds, 1..3 kinds of bin bounds), 2DPackLib "
            "files, packings through real log files of own instances.",
 }
